@@ -1,0 +1,7 @@
+//go:build !verif
+
+package badger
+
+// No-op observation point for the /verif correspondence harness (see verif_export_gc.go): called
+// by valueLog.rewrite before it examines the n-th record of the file being collected.
+func verifGCScanPoint(db *DB, n int) {}
